@@ -226,8 +226,40 @@ def run_fls(case, res):
     res["sample"] = dict(case)
 
 
+def run_fls_family(case, res):
+    """the analytical anchor through the routine that builds families of long-time curves (what searches and sizing call), for a sequence
+    of burial depths / radii / heights asked one after the other in one process"""
+    from ghedesigner.gfunction import calc_g_func_for_multiple_lengths
+    from ghedesigner.utilities import eskilson_log_times
+
+    coords = field_coords(case["field"])
+    m = scenarios.build_manager("nearsquare", do_set_design=False)
+    alpha = m._soil.k / m._soil.rhoCp
+    lt = eskilson_log_times()
+    sel = lt[::3] + [lt[-1]]
+    n = len(coords)
+    for k, (H, D, rb) in enumerate(case["sequence"]):
+        res["evals"] += 1
+        gf = calc_g_func_for_multiple_lengths(5.0 if n > 1 else rb, [H], rb, D, 0.3, m.pipe_type, sel, coords, m._fluid, m._pipe, m._grout, m._soil, boundary="UHTR")
+        got = [float(v) for v in gf.g_lts[H]]
+        ts = H ** 2 / (9 * alpha)
+        want = fls.g_function_uhtr(coords, [exp(x) * ts for x in sel], alpha, H, D, rb)
+        worst = max(abs(a - b) / max(1.0, abs(b)) for a, b in zip(got, want))
+        if worst > (1e-6 if n == 1 else 1e-4) or float(gf.d) != float(D) or float(gf.r_b_values[H]) != float(rb):
+            res["violations"].append(core.viol("differs_from_finite_line_source", dict(case, sequence=case["sequence"][:k + 1]), observed=worst,
+                                               msg=f"{n} boreholes, request #{k + 1} (H={H} D={D} rb={rb}) through calc_g_func_for_multiple_lengths: UHTR curve differs from the analytical FLS superposition "
+                                                   f"by {worst:.2e} (relative), depth / radius recorded {gf.d} / {gf.r_b_values[H]}", n=n, via="family-routine", after_other_requests=k > 0))
+            break
+    res.outcome("fls_family_routine")
+    res["nontrivial"] += 1
+    res["sample"] = dict(case)
+
+
 def run_case(case):
     res = core.Result(evals=0)
+    if case["family"] == "fls_family":
+        run_fls_family(case, res)
+        return res
     {"join": run_join, "interp": run_interp, "radius": run_radius, "fls": run_fls, "recompute": run_recompute}[case["family"]](case, res)
     return res
 
@@ -274,6 +306,9 @@ def main(run: core.Run, only=None):
         for shift in ([431250.0, 4581362.0], [1200.0, 35000.0]):
             fl.append({"family": "fls", "field": f, "H": 100.0, "D": 2.0, "rb": 0.075, "stride": 3, "shift": shift})
     run.drive(fl, family="fls-anchor")
+    ff = [{"family": "fls_family", "field": f, "sequence": sq} for f in ([["rect", 2, 2, 5.0], ["rect", 1, 1, 5.0]] + ([] if quick else [["L", 3, 3, 6.0], ["rect", 2, 5, 5.0]]))
+          for sq in ([[100.0, 2.0, 0.075], [100.0, 8.0, 0.075], [100.0, 2.0, 0.075]], [[60.0, 1.0, 0.055], [60.0, 1.0, 0.075], [135.0, 1.0, 0.075], [60.0, 4.0, 0.055]])]
+    run.drive(ff, family="fls-through-the-family-routine")
     return run.finish(
         rule="join: H x soil lattice through the real grab_g_function; interpolation: all 31 subsets of 5 stored heights x each stored "
              "height; radius correction: all ratio pairs; FLS anchor: fields x (H, D, r_b) through the real calculate_g_function(UHTR) vs "
